@@ -4,6 +4,8 @@
 //                                      GetAncestor / LastCommonAncestor / CChain / LocatorEntries / GetLocator and prints one JSON line per
 //                                      call (engine E3; validated by specs/ChainIndex/TraceChainIndex.tla).  Blocks are named by their
 //                                      creation number, 0 = nullptr.
+//   chainindex tall <rows.ndjson> <h>  engine E4 rows of kind "tall" on ONE linear chain of h + 1 plain CBlockIndex entries (size boundaries: the
+//                                      locator gains an entry at every 2^k + 10; GetAncestor / pskip at the same tip heights)
 //   chainindex table <rows.ndjson>     engine E4 rows of specs/ChainIndex/ChainTables.tla: compact targets (proof is zero exactly for the
 //                                      zero class; the proof value goes back as a "trace" line for the relation check), locator heights on
 //                                      a linear chain, skip heights (internal: a consistent but different skip height is a deviation).
@@ -290,11 +292,67 @@ static std::string CheckRow(const UniValue& row)
     return "unknown row kind " + kind;
 }
 
+// ---------------------------------------------------------------------------------------------- E4, size boundaries
+// One linear chain of plain CBlockIndex entries (pprev / nHeight / BuildSkip as skiplist_tests builds it), millions of blocks tall; the hash of
+// a block is its height, so the heights a locator lists can be read back from the hashes.
+static std::vector<CBlockIndex>* g_tall_ptr{nullptr};
+#define g_tall (*g_tall_ptr)
+static std::vector<uint256> g_tall_hash;
+static void BuildTall(size_t n)
+{
+    g_tall_ptr = new std::vector<CBlockIndex>(n); g_tall_hash.resize(n);
+    for (size_t i = 0; i < n; ++i) {
+        g_tall_hash[i] = ArithToUint256(arith_uint256(uint64_t(i)));
+        g_tall[i].nHeight = (int)i;
+        g_tall[i].pprev = i ? &g_tall[i - 1] : nullptr;
+        g_tall[i].phashBlock = &g_tall_hash[i];
+        g_tall[i].BuildSkip();
+    }
+}
+static std::string CheckTallRow(const UniValue& row)
+{
+    if (row["kind"].get_str() != "tall") return "not a tall row";
+    const int h = row["h"].getInt<int>();
+    if ((size_t)h >= g_tall.size()) return "height beyond the harness chain";
+    const CBlockIndex* tip = &g_tall[h];
+    R().cur_action = UniValue(strprintf("tall chain, tip height %d", h));
+    const std::vector<uint256> have = LocatorEntries(tip);
+    const UniValue& hs = row["hs"];
+    bool same = have.size() == hs.size();
+    std::string got;
+    for (size_t i = 0; i < have.size(); ++i) {
+        const arith_uint256 v = UintToArith256(have[i]);
+        const int64_t hh = v.bits() > 40 ? -1 : (int64_t)v.GetLow64();
+        if (i < 3 || i + 3 >= have.size()) got += std::to_string(hh) + " "; else if (i == 3) got += "... ";
+        if (same && hh != hs[i].getInt<int>()) same = false;
+    }
+    if (!same) return strprintf("LocatorEntries at tip height %d lists %d entries [%s], the specification %d entries ending at genesis", h, have.size(), got, hs.size());
+    if (have.empty() || have.back() != g_tall_hash[0]) return "the locator does not end at genesis";
+    if (GetLocator(tip).vHave != have) return "GetLocator differs from LocatorEntries";
+    const UniValue& anc = row["anc"];
+    for (size_t i = 0; i < anc.size(); ++i) {
+        const int q = anc[i][0].getInt<int>(), exp = anc[i][1].getInt<int>();
+        const CBlockIndex* r = tip->GetAncestor(q);
+        const CBlockIndex* want = exp < 0 ? nullptr : &g_tall[exp];
+        if (r != want) return strprintf("GetAncestor(%d) of the block at height %d returns %s, the specification the block at height %d", q, h, r ? strprintf("height %d", r->nHeight) : "nullptr", exp);
+        R().Count("tall_ancestor_queries");
+    }
+    if (h > 0) {
+        if (!tip->pskip) return strprintf("block at height %d has no skip pointer", h);
+        const int sh = tip->pskip->nHeight;
+        if (sh < 0 || sh >= h || tip->pskip != &g_tall[sh]) return strprintf("pskip of height %d is not a proper ancestor (height %d)", h, sh);
+        if (sh != row["sh"].getInt<int>()) R().Deviation(row["h"], strprintf("skip height %d, GetSkipHeight as specified gives %d", sh, row["sh"].getInt<int>()), UniValue(sh));
+    }
+    R().Count("tall_rows"); R().Count("tall_locator_entries", (int64_t)have.size());
+    return "";
+}
+
 int main(int argc, char** argv)
 {
     if (argc < 3) return 2;
     const std::string mode = argv[1];
     if (mode == "drive") return DriveMain(std::strtoull(argv[2], nullptr, 10), argc > 3 ? argv[3] : "quick");
     if (mode == "table") return TableMain(argv[2], CheckRow);
+    if (mode == "tall") { if (argc < 4) return 2; InstallAbortHandlers(); BuildTall(std::strtoull(argv[3], nullptr, 10) + 1); return TableMain(argv[2], CheckTallRow); }
     return 2;
 }
